@@ -268,12 +268,13 @@ fn subsets_up_to(n: usize, k: usize) -> Vec<Vec<usize>> {
     out
 }
 
-fn exhaustive(ctx: &mut Ctx, qs: &[Qubit], names: &[&str], max_frames: usize, with_swap: bool) {
+/// `stride`: take every `stride`-th frame set of the enumeration
+fn exhaustive(ctx: &mut Ctx, qs: &[Qubit], names: &[&str], max_frames: usize, with_swap: bool, stride: usize) {
     let u = frame_universe(qs, names);
     let instrs = frame_instructions(qs, names, with_swap);
     let bodies = bodies_for_reset(qs);
     let reset_all = Instruction::Reset(Reset { qubit: None });
-    for s in subsets_up_to(u.len(), max_frames) {
+    for s in subsets_up_to(u.len(), max_frames).into_iter().step_by(stride) {
         let frames: Vec<FrameIdentifier> = s.iter().map(|&j| u[j].clone()).collect();
         for i in &instrs {
             run_case(ctx, &frames, &[], i);
@@ -339,14 +340,16 @@ fn run(ctx: &mut Ctx) {
     let q2 = [fixed(0), fixed(1)];
     let q3 = [fixed(0), fixed(1), fixed(2)];
     if ctx.quick() {
-        // {0,1} × {a,b}: all 12 frames, every set of ≤ 3 of them, every instruction incl. all SWAP pairs
-        exhaustive(ctx, &q2, &["a", "b"], 3, true);
+        // {0,1} × {a,b}: all 12 frames, every set of ≤ 4 of them, every instruction incl. all SWAP pairs
+        exhaustive(ctx, &q2, &["a", "b"], 4, true, 1);
         // {0,1,2} × {a,b,c}: all 36 frames, sets of ≤ 1, every instruction incl. all 1296 SWAP pairs
-        exhaustive(ctx, &q3, &["a", "b", "c"], 1, true);
+        exhaustive(ctx, &q3, &["a", "b", "c"], 1, true, 1);
     } else {
-        exhaustive(ctx, &q2, &["a", "b"], 4, true);
-        exhaustive(ctx, &q3, &["a", "b", "c"], 2, true);
-        exhaustive(ctx, &q3, &["a", "b", "c"], 3, false);
+        exhaustive(ctx, &q2, &["a", "b"], 4, true, 1);
+        // all sets of ≤ 2 of the 36 frames × every instruction incl. all SWAP pairs
+        exhaustive(ctx, &q3, &["a", "b", "c"], 2, true, 1);
+        // every 4th set of ≤ 3 frames × every instruction (SWAP pairs sampled)
+        exhaustive(ctx, &q3, &["a", "b", "c"], 3, false, 4);
     }
 
     // ---- 3. seeded random: larger frame sets, variable qubits, every Instruction variant as query
